@@ -13,7 +13,8 @@
 EXTENDS Naturals, Sequences, FiniteSets, TLC, Json
 
 (* argnames: the names of the arguments as written in the source ("a" or "b" series) - not part of the C-visible interface *)
-M(name, recv, args, ret) == [name |-> name, recv |-> recv, args |-> args, ret |-> ret, skip |-> FALSE, dflt |-> FALSE, doc |-> FALSE, argnames |-> "a"]
+(* ir: the method carries its own #[int_result] (its `res` return crosses as a code plus an output slot in every build)    *)
+M(name, recv, args, ret) == [name |-> name, recv |-> recv, args |-> args, ret |-> ret, skip |-> FALSE, dflt |-> FALSE, doc |-> FALSE, argnames |-> "a", ir |-> FALSE]
 
 Base == [ir |-> FALSE,
          ms |-> << M("m1", "ref", <<"i64">>, "i64"),
@@ -25,11 +26,14 @@ Base == [ir |-> FALSE,
                    M("m5", "ref", <<"cb_u32">>, "op_u32"),
                    M("m6", "mut", <<"sl_u32", "it_u32">>, "vec_u32"),
                    M("m7", "ref", <<"op_u32", "vec_u32">>, "tup_u32"),
-                   M("m8", "ref", <<"box_u32", "tup_u32">>, "box_u32") >>]
+                   M("m8", "ref", <<"box_u32", "tup_u32">>, "box_u32"),
+                   \* a method that uses integer result codes in the BASE build already (an output slot in its vtable entry):
+                   \* every per-method edit below is also made inside such a method
+                   [M("m9", "ref", <<"u32">>, "res") EXCEPT !.ir = TRUE] >>]
 K == 1..Len(Base.ms)
 
 (* C-visible interface: exported methods only; `res` is Result<u64,()> whose C shape depends on int_result *)
-CRet(m, ir) == IF m.ret = "res" THEN (IF ir THEN "i32+out" ELSE "CResult") ELSE m.ret
+CRet(m, ir) == IF m.ret = "res" THEN (IF ir \/ m.ir THEN "i32+out" ELSE "CResult") ELSE m.ret
 Interface(d) == [k \in 1..Len(SelectSeq(d.ms, LAMBDA m : ~m.skip)) |->
                    LET m == SelectSeq(d.ms, LAMBDA x : ~x.skip)[k] IN
                    [name |-> m.name, recv |-> m.recv, args |-> m.args, ret |-> CRet(m, d.ir)]]
